@@ -69,6 +69,35 @@ def D(*names):
     return "#[derive(" + ", ".join("derive_more::" + n for n in names) + ")]"
 
 
+def impl_parts(decl):
+    """`<'a, T: Clone = u8, const N: usize = 2>` -> (`<'a, T: Clone, const N: usize>`, `<'a, T, N>`)"""
+    if not decl:
+        return "", ""
+    params, cur, depth = [], "", 0
+    for ch in decl.strip()[1:-1]:
+        if ch in "<([":
+            depth += 1
+        elif ch in ">)]":
+            depth -= 1
+        if ch == "," and depth == 0:
+            params.append(cur.strip()); cur = ""
+        else:
+            cur += ch
+    if cur.strip():
+        params.append(cur.strip())
+    gens, args = [], []
+    for p in params:
+        nodef = p.split("=")[0].strip() if not p.startswith("'") else p
+        gens.append(nodef)
+        if p.startswith("'"):
+            args.append(p.split(":")[0].strip())
+        elif p.startswith("const"):
+            args.append(p.split()[1].rstrip(":"))
+        else:
+            args.append(p.split(":")[0].split("=")[0].strip())
+    return "<" + ", ".join(gens) + ">", "<" + ", ".join(args) + ">"
+
+
 def tuple_struct(decl, where, fields, attrs=None, dep=None):
     attrs = attrs or [""] * len(fields)
     fs = ", ".join(("#[deprecated] " if dep == i else "") + f"{a}pub {t}" for i, (a, t) in enumerate(zip(attrs, fields)))
@@ -124,6 +153,12 @@ def items_for(header, kinds=("plain", "deprecated", "never")):
                 yield f"{hid}/{kind}/{d}/named", D(d) + " " + named_struct(decl, where, fields, dep=dep)
                 yield f"{hid}/{kind}/{d}/forward", D(d) + f" #[{SNAKE[d]}(forward)] " + tuple_struct(decl, where, fields, dep=dep)
             yield f"{hid}/{kind}/Sum/tuple", D("Add", "Sum") + " " + tuple_struct(decl, where, fields, dep=dep)
+            if kind == "plain":
+                # Sum / Product alone (the operator impl written by hand): the expansion may only need what `sum` provides
+                ig, ia = impl_parts(decl)
+                for d, op, m in (("Sum", "Add", "add"), ("Product", "Mul", "mul")):
+                    yield f"{hid}/{kind}/{d}/alone", (D(d) + " " + tuple_struct(decl, where, fields) +
+                                                     f" impl{ig} core::ops::{op} for S{ia} {where} {{ type Output = Self; fn {m}(self, _r: Self) -> Self {{ self }} }}")
             yield f"{hid}/{kind}/Product/named", D("Mul", "Product") + " #[mul(forward)] " + named_struct(decl, where, fields, dep=dep)
         # a lone bare type parameter as the target of `impl From<S<T>> for T` violates Rust's orphan rule (E0210),
         # and `#[from(forward)]` on it overlaps with the reflexive `impl From<T> for T` (E0119): not derive_more's doing
